@@ -8,15 +8,32 @@
                       and TR.run FN (the binary64 traversal model, M line) on the path the application returned
      app_reach (C05)  RR.judge (Model/ReachRun.v: Reach.reachb / pwalkb / reach_set / Bellman-Ford, Proofs/ReachSet.v)
 
+     app_frontier (C04) FrontierRun.check_outcome (raw-table judge of Model/FrontierSpec.v: no tree / route edge
+                      inadmissible by the files, no restricted consecutive pair in travel order) + the builder/service
+                      model Frontier.build for the class of the response (M line)
+     app_limits (C10) TerminationRun.TR.check_case on the limits READ FROM THE CONFIGURATION (TR.configured); the
+                      counters of a limited run are those of the unlimited run up to the first test the configured
+                      limit fails (limited = prefix of unlimited: Proofs/Termination*.v)
+     app_ksp    (C13) KspRun.KR.check_case (Model/KspSpec.v over exact rationals)
+
    S lines print the text the harness expects for an accepted response and REJECT(..) otherwise, so that I = S exactly
    when the application's answer meets the property.  Definitions only. *)
-From Coq Require Import ZArith QArith List Arith Bool String Floats.
+From Coq Require Import ZArith NArith QArith List Arith Bool String Floats.
 From RC Require Import Base.Show Base.Res Base.Num Base.Json Model.Search Model.SearchSpec Model.SearchRun Model.Reach
   Model.ReachRun Model.Units Model.StateOps Model.Traversal Model.Cost Model.TraversalRun.
+(* the runners of C04 / C10 / C13 are only named, never imported (two of them are called TR; stdpp notations stay out) *)
+From RC Require Model.Frontier Model.FrontierSpec Model.FrontierRun Model.Termination Model.TerminationRun
+  Model.Ksp Model.KspSpec Model.KspRun.
 Import ListNotations.
 Local Open Scope string_scope.
 
 Module E2E.
+Module FrM := RC.Model.Frontier.Frontier.
+Module FRun := RC.Model.FrontierRun.FrontierRun.
+Module TMm := RC.Model.Termination.TM.
+Module TMR := RC.Model.TerminationRun.TR.
+Module KspM := RC.Model.Ksp.Ksp.
+Module KRm := RC.Model.KspRun.KR.
 
 (* ------------------------------------------------------------------ the network and the query, as SR sees them *)
 Definition mk_world (n : nat) (edges : list (nat * nat)) (cost : list Q) (forbid : list nat) (init : Q) : SR.world QN :=
@@ -136,5 +153,107 @@ Definition line_sums_S (id : Z) (mk : TR.case_gen) (path : list nat) (impl_init 
 
 (* a query without a route (error response): nothing to judge for this property; both lines repeat the status *)
 Definition line_echo (tag : string) (id : Z) (text : string) : string := line tag id text.
+
+(* ------------------------------------------------------------------ app_frontier (C04) *)
+(* [c]: the raw tables the harness wrote to the files of the [frontier] section; [qjson]: the query as sent.
+   None = accepted.  The reasons are FrontierRun.check_outcome's (edge, turn, query-edge, query-turn). *)
+Definition frontier_verdict (n : nat) (edges : list (nat * nat)) (eo : bool) (s : nat) (t : option nat)
+           (c : FrM.config FN) (qjson : json) (status : string)
+           (trees : list (list (option nat * nat))) (routes : list (list nat)) : option string :=
+  let w := SR.mkW FN n edges [] [] [] [] [] [] [] SR.TUnlimited PrimFloat.zero in
+  let g := SR.graph_of FN w in
+  match all_some (map (fun tr => all_some (map (branch_triple g) tr)) trees) with
+  | None => Some "a tree edge is not in the network"
+  | Some tts =>
+      let z := PrimFloat.zero in
+      let o := SR.mkO FN status 0
+                 (map (map (fun x : SearchSpec.triple => let '(v, p, e) := x in (v, p, e, z, z, z))) tts)
+                 (map (map (fun e => (e, z, z, z))) routes) in
+      let q := SR.mkQ FN (SR.ADijkstra FN) Search.Forward (if eo then SR.OEdge else SR.OVertex) s t None in
+      FRun.check_outcome c qjson None 0 q o
+  end.
+(* the application's searches cannot re-open a vertex (Dijkstra / default A-star over a consistent estimate): the
+   model's run is not consulted, a restricted pair inside a route is reported as it is *)
+Definition line_frontier (id : Z) (n : nat) (edges : list (nat * nat)) (eo : bool) (s : nat) (t : option nat)
+           (c : FrM.config FN) (qjson : json) (status : string)
+           (trees : list (list (option nat * nat))) (routes : list (list nat)) (text : string) : string :=
+  line "S" id (match frontier_verdict n edges eo s t c qjson status trees routes with
+               | None => text
+               | Some why => "REJECT(" ++ why ++ ";reopen=?) " ++ status
+               end).
+(* M: the class of the response against the model of the builders and services (Model/Frontier.v): a query the
+   services accept is answered (route or no path), a query they refuse is answered with an error *)
+Definition line_frontier_M (id : Z) (c : FrM.config FN) (qjson : json) (status : string) (text : string) : string :=
+  let answered := String.eqb status "Ok" || String.eqb status "nopath" in
+  line "M" id (match FrM.build FN (fun f => f) false c qjson None with
+               | Ok _ => if answered then text
+                         else "MODEL(the frontier services accept this query) " ++ status
+               | Err _ => if String.eqb status "err" then text
+                          else "MODEL(the frontier services refuse this query) " ++ status
+               | _ => "MODEL(crash)"
+               end).
+
+(* ------------------------------------------------------------------ app_limits (C10) *)
+Definition mk_obs (status msg : string) (iters : nat) (trees : list (list (nat * nat * nat)))
+           (routes : list (list nat)) (digest : Z) : TMR.obs :=
+  TMR.mkObs status msg iters trees routes digest [].
+
+Fixpoint first_fire (t : TMm.term) (ck : TMm.clock) (tr : list (nat * nat)) (i : nat) : option nat :=
+  match tr with
+  | [] => None
+  | p :: r => if TMm.fires t ck (fst p) (snd p) then Some i else first_fire t ck r (S i)
+  end.
+(* the counters a run under limit [t] must have shown to the limit test, given the unlimited run's counters [unl_tr]
+   (the search is deterministic and consults the limit only through that test): a run that reports termination
+   stopped at the first test [t] fails (when there is none it made every test, and the judge refuses it); any other
+   run made every test of the unlimited run.  The application searches on worker threads where hook H2 cannot
+   record, so the limited runs' own counters are not observed. *)
+Definition limits_trace (t : TMm.term) (unl_tr : list (nat * nat)) (status : string) : list (nat * nat) :=
+  if String.eqb status "terminated" then
+    match first_fire t (TMm.clock_of_script []) unl_tr 0 with
+    | Some j => firstn (S j) unl_tr
+    | None => unl_tr
+    end
+  else unl_tr.
+
+Fixpoint limits_entries (unl_tr : list (nat * nat)) (cs : list (json * TMR.obs)) : option (list (TMR.entry * TMR.obs)) :=
+  match cs with
+  | [] => Some []
+  | (j, o) :: r =>
+      match TMR.configured 50 j, limits_entries unl_tr r with
+      | Some t, Some es => Some (((t, []), TMR.with_trace o (limits_trace t unl_tr (TMR.ob_status o))) :: es)
+      | _, _ => None
+      end
+  end.
+
+(* [cs]: the [termination] section of every application of the sweep (as JSON) with what that application answered;
+   [unl]: the answer of the application without a limit, [unl_tr]: the unlimited run's counters.  The limits are read
+   off the configuration by TR.configured, the clock never advances (query_runtime budgets are generous). *)
+Definition limits_verdict (n : nat) (edges : list (nat * nat)) (eo ksp : bool) (unl : TMR.obs)
+           (unl_tr : list (nat * nat)) (cs : list (json * TMR.obs)) : option string :=
+  let g := SR.graph_of QN (mk_world n edges [] [] 0%Q) in
+  let u := TMR.with_trace unl unl_tr in
+  if String.eqb (TMR.ob_status unl) "terminated" then Some "the application without a limit reports termination"
+  else
+  match limits_entries unl_tr cs with
+  | None => Some "a configuration of the sweep is not a limit the property reads"
+  | Some es =>
+      if ksp then TMR.check_case false (TMR.max_degree g) u es
+      else TMR.check_case (negb eo) (TMm.deg_bound Search.Forward g) u es
+  end.
+Definition line_limits (id : Z) (n : nat) (edges : list (nat * nat)) (eo ksp : bool) (unl : TMR.obs)
+           (unl_tr : list (nat * nat)) (cs : list (json * TMR.obs)) (text : string) : string :=
+  line "S" id (match limits_verdict n edges eo ksp unl unl_tr cs with
+               | None => text
+               | Some why => "REJECT(" ++ why ++ " -- the term shown is the CONFIGURED one)"
+               end).
+
+(* ------------------------------------------------------------------ app_ksp (C13) *)
+Definition line_ksp (id : Z) (w : SR.world FN) (q : KRm.kq FN) (simq : KspM.simfn Q) (pi : list (option float))
+           (optimal : bool) (o : SR.outcome FN) (aa : nat) (text : string) : string :=
+  line "S" id (match KRm.check_case w q simq pi optimal o aa with
+               | None => text
+               | Some why => "REJECT(" ++ why ++ ") " ++ SR.o_status FN o
+               end).
 
 End E2E.
